@@ -37,6 +37,19 @@ CHECKS = {
              "sets hold non-negative values (preserved by clause (a) of the induction); the induction principles over "
              "the transactions of a block and over the chain.",
         technique=PROOF_TECH + "; structured lemma scripts with named premises"),
+    'C03': dict(
+        category='exploration', design_ref='6/C03',
+        text="Two parts, reported separately in the evidence. PROOF (all inputs): the whole view of the state returned by "
+             "add_block_no_validation - every earlier entry of every map is the old one, the new block's unspent set is "
+             "uto_apply_block of its PARENT's set, no write to the state value; uto_apply_block is the fold of "
+             "uto_apply_transaction; lemma C03.replay: the set stored at any block is the fold along that block's own "
+             "ancestors whatever else is stored and in whatever order it arrived. BOUNDED (exploration, not counted as "
+             "proved): the per-key balances (sum and exact reference list) against the unspent sets, and immutability of "
+             "balance maps and snapshots obtained earlier, evaluated with the real code on every tree shape up to the "
+             "stated bound, with spends that differ between forks, in several arrival orders and query orders.",
+        note="The recorded level is the weaker one because the balance-coherence sentence of the statement is only "
+             "covered by the bounded part. Proof part assumes A-IMMUT and that block ids are functions of the block.",
+        technique=PROOF_TECH + " for the unspent sets; bounded run-time contract evaluation for the per-key balances"),
     'C04': dict(
         category='proof', design_ref='6/C04',
         text="The whole view of the state returned by CoinState.add_block_no_validation (blocks, unspent sets, by-height "
